@@ -217,6 +217,12 @@ func (c *caseCtx) judgeCall(s *stats, res *callResult) (final *sim.Region) {
 	if res.allocFired {
 		s.count("calls_with_id_allocation_fault_hit", 1)
 	}
+	if k.Malformed != "" {
+		// two peers on one store / a peer on an unknown store: the statement says nothing about such a
+		// region; the call must not panic, whatever it returns is only counted
+		s.count("calls_on_malformed_region_"+k.Malformed+"_only_panic_judged", 1)
+		return nil
+	}
 	if len(res.ops) == 0 {
 		if res.allocFired {
 			// the operator could not be created: proposing nothing is what the statement allows
@@ -285,8 +291,38 @@ func randomPhase(r *ev.Run, workers int, total *stats, mu *sync.Mutex) {
 			st := newStats()
 			for wi := wk; wi < worlds; wi += workers {
 				w := genWorld(rng, wi%100 == 7)
-				if err := runHistory(st, w, rng, nil); err != nil {
+				if err := runHistory(st, w, rng, nil, nil); err != nil {
 					fatal.Do(func() { r.Inconclusive("cannot build cluster: %v", err) })
+					return
+				}
+			}
+			mu.Lock()
+			total.merge(st)
+			mu.Unlock()
+		}(wk)
+	}
+	wg.Wait()
+}
+
+// oneFieldPhase: worlds in which every field of a served rule / the settings / a store is changed alone,
+// one per round, in random order, under one long-lived checker.
+func oneFieldPhase(r *ev.Run, workers int, total *stats, mu *sync.Mutex) {
+	worlds := r.Pick(160, 500)
+	var wg sync.WaitGroup
+	var fatal sync.Once
+	for wk := 0; wk < workers; wk++ {
+		wg.Add(1)
+		go func(wk int) {
+			defer wg.Done()
+			rng := rand.New(rand.NewSource(r.ShardSeed()*977 + int64(wk)))
+			st := newStats()
+			for wi := wk; wi < worlds; wi += workers {
+				w := genWorld(rng, false)
+				fields := append([]string(nil), oneFields...)
+				rng.Shuffle(len(fields), func(i, j int) { fields[i], fields[j] = fields[j], fields[i] })
+				st.count("one_field_worlds", 1)
+				if err := runHistory(st, w, rng, nil, fields); err != nil {
+					fatal.Do(func() { r.Inconclusive("one-field phase: %v", err) })
 					return
 				}
 			}
@@ -320,7 +356,7 @@ func replayFile(r *ev.Run, path string, total *stats) {
 	}
 	// the checkers read Go maps: run the history a few times
 	for i := 0; i < 20; i++ {
-		if err := runHistory(total, w0, nil, rounds); err != nil {
+		if err := runHistory(total, w0, nil, rounds, nil); err != nil {
 			r.Inconclusive("replay: %v", err)
 			return
 		}
@@ -368,6 +404,7 @@ func main() {
 	} else {
 		t0 := time.Now()
 		randomPhase(r, workers, total, &mu)
+		oneFieldPhase(r, workers, total, &mu)
 		t1 := time.Now()
 		concurrentPhase(r, workers, total, &mu)
 		r.Set("phase_seconds_histories", t1.Sub(t0).Seconds()) // information only
